@@ -1,11 +1,16 @@
 //! vcheck <ID> --tier quick|thorough [--replay FILE]
 #![allow(clippy::all)]
+mod alloc;
 mod checks;
+mod pipe;
 mod core;
 mod sched;
 mod wire;
 
 use std::time::Instant;
+
+#[global_allocator]
+static GLOBAL: alloc::Counting = alloc::Counting;
 
 use crate::core::{Report, Tier};
 
